@@ -98,6 +98,14 @@ Lemma quote_passthrough_refuted :
 Proof. vm_compute. repeat split; reflexivity. Qed.
 
 
+(** 9. a first comment that reads as the delimiter directive (sqltool templates write it raw) *)
+Definition w_directive_plan : plan := plan1 [("SELECT 1", "atlas:delimiter //"); ("SELECT 2", "")]%string.
+Lemma comment_directive_refuted :
+  roundtrip FGolangMigrate opts_generic [] w_directive_plan = Some [bs ("SELECT 1;" ++ nl ++ "SELECT 2;")%string]
+  /\ roundtrip FDBMate opts_generic [] w_directive_plan = Some [bs ("SELECT 1;" ++ nl ++ "SELECT 2;")%string]
+  /\ roundtrip FAtlas opts_generic [] w_directive_plan = Some [bs "SELECT 1;"%string; bs "SELECT 2;"%string].
+Proof. vm_compute. repeat split; reflexivity. Qed.
+
 (** example plans / directories used by the non-vacuity Examples and witnesses of Props_C07.v *)
 Local Open Scope string_scope.
 Lemma semi_eq : semi = delimiter. Proof. reflexivity. Qed.
